@@ -103,7 +103,7 @@ func cmdCheck(args []string) int {
 		}
 	}
 	start := time.Now()
-	os.RemoveAll(filepath.Join(verifDir(), "replays", *prop))
+	os.RemoveAll(filepath.Join(outDir(), "replays", *prop))
 	ld, cs, err := loadAll()
 	if err != nil {
 		fmt.Fprintln(os.Stderr, "gv: load error:", err)
@@ -288,7 +288,7 @@ func (ctx *checkCtx) report(total *JobResult, update, verbose bool, start time.T
 	vanishedFns := map[string]bool{}
 	newFailing := map[string][]*ObRecord{}
 
-	replayDir := filepath.Join(verifDir(), "replays", ctx.prop)
+	replayDir := filepath.Join(outDir(), "replays", ctx.prop)
 	knownCount := map[string]int{}
 	knownFirst := map[string]string{}
 
@@ -583,9 +583,9 @@ func writeEvidence(ctx *checkCtx, total *JobResult, obligations, discharged, bou
 		"wall_s":      wall,
 		"violations":  len(violations),
 	}
-	os.MkdirAll(filepath.Join(verifDir(), "evidence"), 0755)
+	os.MkdirAll(filepath.Join(outDir(), "evidence"), 0755)
 	data, _ := json.MarshalIndent(ev, "", " ")
-	os.WriteFile(filepath.Join(verifDir(), "evidence", ctx.prop+".json"), append(data, '\n'), 0644)
+	os.WriteFile(filepath.Join(outDir(), "evidence", ctx.prop+".json"), append(data, '\n'), 0644)
 }
 
 
